@@ -80,7 +80,7 @@ class C04(InterpProp):
     cmp_callbacks = False
     cmp_err = 'class'
     cmp_time = False
-    quick_cases = 1000
+    quick_cases = 2500
     thorough_cases = 40000
     n_ops = 30
     rule = ('random well-formed charts with many weakly guarded transitions on few events (same state under '
